@@ -15,7 +15,7 @@ RULE = ("(i) all lengths 1..128 x leading zero counts 0..len (8256 structured ca
         "strings for the checksummed decoder derived from valid encodings by substitution (incl. look-alikes 0 O I l), "
         "insertion, deletion, transposition, '1'-prefixing, truncation to 0..5 chars, case flips - each classified by the "
         "independent decoder as badchar|short|mismatch|valid(payload); distinct = distinct (monitor, case) digests"
-        " EXTENSIONS: + carry-aliasing grid for non-alphabet characters (values -58..-1 and 58..115), consumers (WIF / extended key / wallet import / address payload), affixed out-of-range characters, 58^k-1 / 58^k / 58^k+1 and saturated / sparse inputs up to 8 KiB (thorough 128 KiB), request histories of K+3 distinct strings / payloads per harvested threshold K with a second look at the earliest answers")
+        " EXTENSIONS: + carry-aliasing grid for non-alphabet characters (values -58..-1 and 58..115), consumers (WIF / extended key / wallet import / address payload), affixed out-of-range characters, 58^k-1 / 58^k / 58^k+1 and saturated / sparse inputs up to 8 KiB (thorough 128 KiB), request histories of K+3 distinct strings / payloads per harvested threshold K with a second look at the earliest answers, byte-level checksum forgeries re-encoded (each byte altered, pairs swapped, rotated)")
 LEVEL_TEXT = ("Every encode/decode call is compared with an independent byte-wise long-division codec; the checksummed "
               "decoder is run as a differential against an independent classifier over mutated strings: it must raise for "
               "bad characters, too-short strings and checksum mismatches and return exactly the payload otherwise.")
@@ -349,6 +349,20 @@ def run(ctx):
         judge_check_decoder(ctx, {"s": single, "tag": "single-sha"})
         three = p + hash256(p)[:3] + bytes([hash256(p)[3] ^ 0x01])
         judge_check_decoder(ctx, {"s": rb58.encode(three), "tag": "chk-3of4"})
+        # byte-level forgeries, re-encoded (a character edit never changes ONE checksum byte alone): each of the four checksum
+        # bytes off by one bit / all bits / replaced, every pair of bytes swapped, the checksum rotated
+        c = hash256(p)[:4]
+        for pos in range(4):
+            for x in (0x01, 0x80, 0xFF, rnd.randrange(1, 256)):
+                forged = c[:pos] + bytes([c[pos] ^ x]) + c[pos + 1:]
+                judge_check_decoder(ctx, {"s": rb58.encode(p + forged), "tag": "chk-byte%d-altered" % pos})
+        for a_, b_ in ((0, 1), (0, 3), (1, 2), (2, 3)):
+            if c[a_] != c[b_]:
+                lst = bytearray(c)
+                lst[a_], lst[b_] = lst[b_], lst[a_]
+                judge_check_decoder(ctx, {"s": rb58.encode(p + bytes(lst)), "tag": "chk-bytes-swapped"})
+        if c[1:] + c[:1] != c:
+            judge_check_decoder(ctx, {"s": rb58.encode(p + c[1:] + c[:1]), "tag": "chk-rotated"})
         swapped = p + hash256(p)[3::-1]
         judge_check_decoder(ctx, {"s": rb58.encode(swapped), "tag": "chk-reversed"})
     # K+3 DISTINCT requests in one process, then a second look at the earliest ones, for every threshold K written down in the
